@@ -3,7 +3,8 @@
 (* C01/C03): all small deposits x rates x gaps x orders of settle-triggering actions, up to 3 concurrent payees. *)
 EXTENDS ChainProps, Json
 
-CONSTANTS DepositChoices, AmountChoices, RateChoices, PayOSeqs, Gaps, MaxHeight, InitCoins, MaxSteps, OnlyOK
+CONSTANTS DepositChoices, AmountChoices, RateChoices, PayOSeqs, Gaps, MaxHeight, InitCoins, MaxSteps, OnlyOK,
+          BystanderDeposits   \* deposits of a second, otherwise untouched escrow account (d = 2) whose coins share the module account
 
 VARIABLES st, last, hist
 vars == <<st, last, hist>>
@@ -13,6 +14,7 @@ Pays == {<<o, p>> : o \in PayOSeqs, p \in Providers}
 
 ActionSet ==
        {[act |-> "KAccountCreate", t |-> T, d |-> 1, deposit |-> dp] : dp \in DepositChoices}
+  \cup {[act |-> "KAccountCreate", t |-> T, d |-> 2, deposit |-> dp] : dp \in BystanderDeposits}
   \cup {[act |-> "KDeposit", t |-> T, d |-> 1, amount |-> m] : m \in AmountChoices}
   \cup {[act |-> a, t |-> T, d |-> 1] : a \in {"KSettle", "KAccountClose"}}
   \cup {[act |-> "KPaymentCreate", t |-> T, d |-> 1, g |-> 1, o |-> x[1], p |-> x[2], rate |-> r] : x \in Pays, r \in RateChoices}
